@@ -146,6 +146,12 @@ def check_cacg(cacg, z, gamma, qf, opts):
                 covariance_norm=opts.get('covariance_norm', 'eigenvalue'),
                 eigenvalue_floor=opts.get('eigenvalue_floor', 1e-10))
             Ci = impl_cacg_covariance(cacg, idx + (k,))
+            if not np.any(Cs) or not np.all(np.isfinite(Cs)):
+                # every frame with weight for this class is silent (z = 0)
+                # and there is no eigenvalue floor: the update is the zero
+                # matrix, a cACG without support -- nothing to compare
+                note('cacg_zero_update_not_judged', 0.0, 1.0)
+                continue
             r = _rel(Ci, Cs)
             note('cacg_covariance', r, TOL)
             if not r <= TOL:
